@@ -88,6 +88,30 @@ def phase1(work, nworkers):
     ts = [threading.Thread(target=run, args=(k,)) for k in range(nworkers)]
     [t.start() for t in ts]; [t.join() for t in ts]
 
+PRIORITY = [
+    ("cmd/", ["C18"]),
+    ("internal/parser/path", ["C16", "C02", "C07"]),
+    ("internal/parser/yaml", ["C17", "C15", "C06", "C01"]),
+    ("internal/parser/profile/message", ["C13"]),
+    ("internal/parser/profile", ["C01", "C07", "C15", "C17", "C06", "C03", "C13"]),
+    ("internal/generator/path", ["C02", "C07", "C01"]),
+    ("internal/generator", ["C01", "C07", "C13", "C12", "C14", "C03", "C02", "C08", "C15", "C06"]),
+    ("internal/misc", ["C13", "C07", "C01"]),
+    ("internal/validator/normalizer", ["C14", "C17", "C04", "C09"]),
+    ("internal/validator/report", ["C12", "C03", "C06", "C14"]),
+    ("internal/validator/contexts", ["C03", "C12", "C06"]),
+    ("internal/validator", ["C04", "C11", "C08", "C09", "C17", "C10", "C03"]),
+    ("pkg/", ["C11", "C09", "C10", "C04"]),
+]
+
+def ordered(checks, file):
+    first = []
+    for prefix, ids in PRIORITY:
+        if file.startswith(prefix):
+            first = ids
+            break
+    return [c for c in first if c in checks] + [c for c in checks if c not in first]
+
 def phase2(work, nworkers):
     snap = os.path.join(work, "verifsnap")
     if not os.path.isdir(snap):
@@ -114,11 +138,13 @@ def phase2(work, nworkers):
                 return
             apply(wt, m)
             res = {}
-            for c in checks:
+            for c in ordered(checks, m["file"]):
                 rc, o = sh(f"{snap}/bin/verif check {c} --tier quick", snap, 1200, env)
                 if rc != 0:
                     lines = [l[:200] for l in o.splitlines() if l.startswith(("VIOLATION", "INCONCLUSIVE"))][:2]
                     res[c] = {"rc": rc, "lines": lines}
+                if rc == 1:
+                    break  # one objection is enough; the remaining checks are not run
             revert(wt, m)
             shutil.rmtree(os.path.join(work, f"out{k}", "replays"), ignore_errors=True)
             with lock:
